@@ -34,10 +34,13 @@ Definition ma_masks (cls : nat) (c : bcell) : bool :=
   | _ => nonfin (r c)
   end.
 
-(* pncbo: masked_invalid(eval('in1var[...] op in2var[...]').view(np.ma.MaskedArray)).
+(* pncbo: outval = eval('in1var[...] op in2var[...]').view(np.ma.MaskedArray);
+   outval = np.ma.masked_where(~np.isfinite(np.ma.getdata(outval)), outval).
    is_ma = one of the two variables is masked-typed: numpy.ma computes and masks (ma_masks); the
-   view keeps that mask and masked_invalid adds the non-finite cells.  Plain operands: numpy
-   computes, the view has no mask, masked_invalid masks the non-finite cells. *)
+   view keeps that mask and masked_where adds the cells whose data are non-finite.  Plain
+   operands: numpy computes, the view has no mask, masked_where masks the non-finite cells.
+   (Under a cell masked by numpy.ma the data are a finite filler or the raw result; either way
+   the cell is masked, so the observable outcome is the one below.) *)
 Definition impl_cell (is_ma : bool) (cls : nat) (c : bcell) : ocell :=
   if is_ma && ma_masks cls c then None else to_cell (r c).
 
